@@ -350,6 +350,29 @@ def body_spellings(env):
                           env.land(got - want <= 1e-6 * want, want - got <= 1e-6 * want), key='spelling_converted_as_another_unit')
 
 
+def body_output_units(env):
+    """Way back (dassh/table.py): the converters the summary tables use to report internal SI values in the user's units are
+    the inverses of the input conversion -- a flow in kg/s, a length in m and a temperature in K come out as the number the
+    user would have typed for that quantity."""
+    import dassh.table as tb
+    lu, tu, mass, tm = env.params['length'], env.params['temperature'], env.params['mass'], env.params['time']
+    with env.patch(MODS + [tb]):
+        t_ = StubSelf(_bind=(tb.DASSH_Table, ['_get_len_conv', '_get_temp_conv', '_get_mfr_conv']))
+        x = env.real('flow_kg_s', lo=0, hi=1e6)
+        got = t_._get_mfr_conv('%s/%s' % (mass, tm))(x)
+        want = x * float(TIME[tm] / MASS[mass])
+        env.holds('flow rate reported in %s/%s (1e-6 relative)' % (mass, tm), env.land(got - want <= 1e-6 * want, want - got <= 1e-6 * want),
+                  key='output_converted_as_another_unit')
+        y = env.real('length_m', lo=0, hi=1e3)
+        gl = t_._get_len_conv(lu)(y)
+        wl = y / float(LEN[lu])
+        env.holds('length reported in %s (1e-9 relative)' % lu, env.land(gl - wl <= 1e-9 * wl, wl - gl <= 1e-9 * wl), key='output_converted_as_another_unit')
+        T = env.real('temperature_K', lo=1, hi=5000)
+        gt_ = t_._get_temp_conv(tu)(T)
+        wt = {'kelvin': T, 'celsius': T - 273.15, 'fahrenheit': (T - 273.15) * 1.8 + 32.0}[tu]
+        env.holds('temperature reported in %s (1e-9 K)' % tu, env.land(gt_ - wt <= 1e-9, wt - gt_ <= 1e-9), key='output_converted_as_another_unit')
+
+
 def body_spacergrid(env):
     """check_spacergrid consults the length unit: same verdict in every unit system."""
     lu = env.params['length']
@@ -416,6 +439,14 @@ def instances(tier):
     for l, t, m in spell:
         inst.append(dict(label='spelling[%s,%s,%s]' % (l, t, m), body=body_spellings,
                          params={'length': l, 'temperature': t, 'mfr': m}))
+    k_ = 0
+    for mass in ('kg', 'lb'):
+        for tm in ('s', 'min', 'hr'):
+            lu_ = ('m', 'cm', 'mm', 'in', 'ft', 'm')[k_]
+            tu_ = TEMPS[k_ % 3]
+            k_ += 1
+            inst.append(dict(label='output-units[%s,%s,%s/%s]' % (lu_, tu_, mass, tm), body=body_output_units,
+                             params={'length': lu_, 'temperature': tu_, 'mass': mass, 'time': tm}))
     for lu in lens:
         inst.append(dict(label='spacergrid[%s]' % lu, body=body_spacergrid, params={'length': lu}))
     return inst
